@@ -391,6 +391,10 @@ func generate(prop, tier string, r *rand.Rand, idx int) any {
 		return genC17(prop, tier, r)
 	case "C19":
 		return genC19(prop, tier, r)
+	case "C10":
+		return genC10(prop, tier, r)
+	case "C11":
+		return genC11(prop, tier, r)
 	case "C20":
 		return genC20(prop, tier, r)
 	case "C18":
@@ -1008,6 +1012,59 @@ func genC20(prop, tier string, r *rand.Rand) *Scn {
 		}
 		g.sc.Ctx.Kind = "cancel"
 		g.sc.Canceller = &Canceller{Kind: "time", AtUs: at}
+	}
+	return g.sc
+}
+
+func genC10(prop, tier string, r *rand.Rand) *Scn {
+	return bounded(func() *Scn {
+		g := newGen(prop, tier, r)
+		faultfree(g, r)
+		g.sleepP = 0.05
+		depth := 2 + r.IntN(3)
+		g.sc.Root = g.tree(2+r.IntN(6), depth, 0.1)
+		g.sc.Runs = 1 + r.IntN(2)
+		if r.IntN(4) == 0 {
+			g.sc.Via = "flowrun"
+		}
+		return g.sc
+	})
+}
+
+func genC11(prop, tier string, r *rand.Rand) *Scn {
+	g := newGen(prop, tier, r)
+	g.failP = 0.3
+	g.sc.Faulty = true
+	conc := r.IntN(5)
+	stop := r.IntN(2) == 0
+	budget := 1 + r.IntN(3)
+	wait := pick(r, []int{0, 0, 10, 3600000})
+	ni := 1 + r.IntN(16)
+	if r.IntN(2) == 0 {
+		ni = 1 + r.IntN(5)
+	}
+	n := g.rootBatch(ni, budget, wait, conc, stop, []string{"results", "anys"})
+	if r.IntN(3) == 0 {
+		g.timing(n)
+	} else {
+		for i := range n.Visits[0].Items {
+			for a := range n.Visits[0].Items[i].Exec {
+				n.Visits[0].Items[i].Exec[a].SleepMs = 0
+			}
+		}
+	}
+	g.sc.Ctx.Kind = "cancel"
+	switch r.IntN(6) {
+	case 0:
+		g.sc.Ctx.Kind = "precancel"
+	case 1, 2:
+		g.sc.Canceller = &Canceller{Kind: "ticket"}
+	default:
+		vs := &n.Visits[0]
+		i := r.IntN(len(vs.Items))
+		a := 1 + r.IntN(len(vs.Items[i].Exec))
+		o := g.sc.outcomeAt(MEv{Kind: "exec_start", N: n.ID, V: 0, A: a, I: i + 1})
+		o.Cancel = true
 	}
 	return g.sc
 }
